@@ -48,9 +48,6 @@ def body(check):
         q = c.qualname
         stepf = proj.resolve(c, "step")
         loc = stepf.loc() if stepf else c.loc()
-        if name not in rk.NOMINAL_ORDER:
-            check.undecided("RK-ORDER", q, "UNCLASSIFIED: explicit integrator class without a nominal order in the checker's table", c.loc())
-            continue
         try:
             ai, outs = run_step(proj, c, rhs_owned=True)      # "for every right-hand side": buffers may be re-used
         except AnalysisError as e:
@@ -84,6 +81,16 @@ def body(check):
             else:
                 check.violation("AFF-TIME", q, "stage %d is evaluated at time t + %s*dt but its state is at abscissa c_%d = %s" % (j, ct, j, cr), loc, key="stage-time")
         # order conditions
+        if name not in rk.NOMINAL_ORDER:
+            # a class the statement does not name (added since): the generic clauses above apply to it (one update, exact
+            # time advance, stage times = abscissae); its nominal order is not given, so it is held to consistency and
+            # its own order is reported
+            p = rk.achieved_order(T.A, T.b)
+            if p >= 1:
+                check.ok("RK-ORDER", q, "class not named by the statement: weights sum to one, and its tableau satisfies all order conditions up to order %d%s" % (p, "" if p < 4 else " (at least)"), loc, nontrivial=False)
+            else:
+                check.violation("RK-WEIGHTS", q, "class not named by the statement: the weights do not sum to one (sum b = %s): not a consistent Runge-Kutta step" % sum(T.b), loc, key="sum b = 1")
+            continue
         order = rk.NOMINAL_ORDER[name]
         for cname, lhs, rhs in rk.order_conditions(T.A, T.b, order):
             rule = "RK-WEIGHTS" if cname.startswith("sum b =") else "RK-ORDER"
